@@ -292,6 +292,25 @@ Gap5Games ==
                final |-> <<6>>]
     IN  { mk(o, swap, rk, third) : o \in {P1, P2}, swap \in BOOLEAN, rk \in BOOLEAN, third \in BOOLEAN }
 
+(* Forced: single-action player states in front of a chooser whose           *)
+(* reachability choice and reward choice differ -- the two diagnostic vectors *)
+(* must be handed through a forced move unchanged.                            *)
+(*   1 -> 2 -> 3 (single actions) ; 3 chooser: risky -> 4, safe -> 5 ;        *)
+(*   4 chance (reward ra) wins with 1/2 ; 5 chance (reward rb) wins ; 6 lose ; 7 win *)
+ForcedGames ==
+    LET mk(o1, o2, o3, ra, rb, r2, swap) ==
+          [n |-> 7,
+           owner  |-> <<o1, o2, o3, PR, PR, PR, PR>>,
+           reward |-> <<0, r2, 1, ra, rb, 0, 0>>,
+           tr |-> << <<Tr("go", 0, 2)>>, <<Tr("on", 0, 3)>>,
+                     IF swap THEN <<Tr("safe", 0, 5), Tr("risky", 0, 4)>> ELSE <<Tr("risky", 0, 4), Tr("safe", 0, 5)>>,
+                     <<Tr("", 1, 7), Tr("", 1, 6)>>, <<Tr("", 1, 7)>>,
+                     <<Tr("", 1, 6)>>, <<Tr("", 1, 7)>> >>,
+           final |-> <<7>>]
+    IN  { mk(o1, o2, o3, ra, rb, r2, swap) :
+            o1 \in {P1, P2, PR} \ {PR}, o2 \in {P1, P2}, o3 \in {P1, P2},
+            ra \in {10, 0}, rb \in {2, 12}, r2 \in {0, 1}, swap \in BOOLEAN }
+
 (* ZeroW: probabilistic transitions of weight 0 (never taken, but present):  *)
 (* into dead states, into the final state, next to live ones.                *)
 (*   1 chooser ; 2 chance with a zero-weight edge ; 3 live ; 4 dead ; 5 lose ; 6 win *)
